@@ -421,3 +421,10 @@ def run(ctx):
         mod = importlib.util.module_from_spec(spec)
         spec.loader.exec_module(mod)
         mod.run_statesync(ctx)
+    # extension: the P2P server's synchronisation logic over real TCP loopback (spec/netsync, harness/c20net)
+    p = os.path.join(os.path.dirname(os.path.abspath(__file__)), "c20_net.py")
+    if os.path.exists(p):
+        spec = importlib.util.spec_from_file_location("check_c20_net", p)
+        mod = importlib.util.module_from_spec(spec)
+        spec.loader.exec_module(mod)
+        mod.run_ext(ctx)
